@@ -114,6 +114,10 @@ func (o *c07Obs) event(p *Play, e *h.Ev) {
 	}
 	if st.GameState != nil && st.GameState.GameID != "" {
 		id := st.GameState.GameID
+		if gc < 1 {
+			c.Violate("C07/hand-opened-without-raising-game-count", fmt.Sprintf("a hand (game id %s, status %s) is attached while the game count is %d", id, st.Status, gc), w())
+			return
+		}
 		if prev, ok := o.gameID[gc]; ok && prev != id {
 			c.Violate("C07/two-game-ids-for-one-hand", fmt.Sprintf("hand %d carries game id %s and %s", gc, prev, id), w())
 			return
@@ -393,6 +397,30 @@ func c07BlindsUnset(c *h.Ctx) {
 	c.Feature("blinds-unset")
 	c.Nontrivial()
 	c.FP("unset", fmt.Sprintf("%+v", cfg))
+	// the blind level arrives while the engine waits to retry: the hand the retry opens is hand 1, with a fresh id
+	if !c.Thorough() || c.R.Intn(2) == 0 {
+		bb := int64(20)
+		s.TE.UpdateBlind(1, 0, 0, bb/2, bb)
+		var oe *h.Ev
+		s.WaitFor(8*time.Second, func(e *h.Ev) bool {
+			if e.Kind == h.EvTable && e.T != nil && e.T.State.Status == pt.TableStateStatus_TableGameOpened {
+				oe = e
+			}
+			return oe != nil || e.Kind == h.EvGateRet
+		}, nil)
+		if oe != nil {
+			c.Feature("opened-by-retry-after-blinds-arrived")
+			st := oe.T.State
+			if st.GameCount != 1 {
+				c.Violate("C07/game-count-not-raised-by-one/opened-by-retry", fmt.Sprintf("the first hand, opened by the engine's retry once the blind level had arrived, carries game count %d", st.GameCount), map[string]interface{}{"cfg": cfg, "trace": s.TraceTail(30)})
+				return
+			}
+			if st.BlindState.Level != 1 {
+				c.Violate("C07/hand-opened-before-blinds-set", fmt.Sprintf("hand opened by the retry at blind level %d", st.BlindState.Level), map[string]interface{}{"cfg": cfg, "trace": s.TraceTail(30)})
+				return
+			}
+		}
+	}
 	c.Sample(map[string]interface{}{"kind": "blinds unset", "cfg": cfg})
 }
 
@@ -516,7 +544,7 @@ func init() {
 		ID:        "C07",
 		Level:     "exploration",
 		Technique: "runtime monitoring: online life-cycle trace checker over every table notification of generated multi-hand tables, field-reset assertions at quiescent points, plus negative scenarios (close / release / break / unset blinds / repeated set-up) decided on gate events",
-		Rule: "case kinds by index: life-cycle runs with continue interval 0 (5..12 hands with churn) and 1 (2..3 hands); close or release after the next hand was set up and during the continue delay; break level set between hands and explicit set-up on a break; repeated set-up + signals 0..2 ms after the first gate fire (up to 12 trials per case); thorough adds unset blinds (engine retries 30 s); " +
+		Rule: "case kinds by index: life-cycle runs with continue interval 0 (5..12 hands with churn) and 1 (2..3 hands); close or release after the next hand was set up and during the continue delay; break level set between hands and explicit set-up on a break; repeated set-up + signals 0..2 ms after the first gate fire (up to 12 trials per case); unset blinds (no hand may open: first attempt and first retry watched in quick, the whole 30 s retry loop in thorough), then the blind level arrives and the hand opened by the retry must be hand 1; " +
 			"non-trivial = a life-cycle run with at least two hands, or a completed negative scenario; distinct = fingerprint of config + ops (+ variant)",
 		Assumptions: []string{"'no hand opens' is decided when the gate callback has returned (logical event) or, for the continue-delay variants, 2.5 s after settlement (the handler runs after 1 s; a slower machine can only hide a violation, not create one)", "update serials are not judged"},
 		Cases: func(tier string) int { return map[string]int{"quick": 320, "thorough": 4000}[tier] },
@@ -525,7 +553,7 @@ func init() {
 		},
 		RequiredFeatures: func(tier string) []string {
 			f := []string{"lifecycle:interval=0", "lifecycle:interval=1", "close-after-set-up", "release-after-set-up", "close-during-continue-delay", "release-during-continue-delay", "break-after-set-up", "double-fire", "paused-after-hand"}
-			f = append(f, "blinds-unset", "pause-mid-hand-then-set-up")
+			f = append(f, "blinds-unset", "opened-by-retry-after-blinds-arrived", "pause-mid-hand-then-set-up")
 			return f
 		},
 		CaseTimeout: 240e9,
